@@ -4,7 +4,7 @@ import random
 from . import core
 from .common import diff_streams, unroll_display, parse_cfg, parse_kv
 
-LEVEL = "exploration"   # raised to "proof" when BB.Props.C01 lands (see bottom)
+LEVEL = "proof"
 THEOREMS = []
 
 ORACLE_BUDGET = 20_000_000
